@@ -10,7 +10,7 @@ from sx.engine import Sym
 PROPERTY = "C16"
 ASSUMPTIONS = [
     "product run inside one path: instance A on the box [lo,hi], instance B on [a*lo+b, a*hi+b] with the translation b a solver variable and the scaling a a concrete positive constant from {1, 2, 1/4, 3, 1/1000}; same reward terms; the RNG draws of A are replayed for B with uniform draws mapped through x -> a*x+b (same seed, affine image of the split points); z3 proves p_B = a*p_A + b for every pull and for get_last_point",
-    "decided in real arithmetic; the property's bit-exact clause for power-of-two scalings is covered only by the floating-point midpoint lemma (C02 FP lemmas), for np.linspace boundaries it is out of reach",
+    "decided in real arithmetic; the property's bit-exact clause for power-of-two scalings is covered only by lemma L-scale (thorough tier: the real Binary / DimensionBinary split run on z3 FloatingPoint proxies on [lo,hi] and on [2^k lo, 2^k hi], k = 1, -2, binary16, no over/underflow: every child bound and representative of the scaled box is 2^k times that of the box, bit-exactly); binary32/64 and np.linspace boundaries were not decided within 15 minutes and are outside the claim",
     "DOO with its default diameter function is checked for translations only (a = 1), the documented exception",
 ]
 A_VALUES = [("1", Fraction(1)), ("2", Fraction(2)), ("1/4", Fraction(1, 4)), ("3", Fraction(3)), ("1/1000", Fraction(1, 1000))]
@@ -97,3 +97,21 @@ def run(ctx, cfg):
         ctx.observe("p%d" % k, p)
     if cfg.get("twin"):
         ctx.check_eq("twin", pb[0][0], pa[0][0], "reachability witness: deliberately false")
+
+
+# ---- floating-point lemma (harness/c16_fp.py): scaling a box by a power of two scales every child boundary and representative
+# produced by the real Binary / DimensionBinary split bit-exactly (thorough tier, binary16)
+from harness import c16_fp  # noqa: E402
+
+
+def lemma_specs(tier):
+    return c16_fp.specs(tier)
+
+
+def run_lemma(spec):
+    shims.install_conversions(shims.load_pyxab())
+    return c16_fp.run_lemma(spec)
+
+
+def lemma_replay(result):
+    return c16_fp.replay(result)
